@@ -28,7 +28,8 @@ try:
         m = re.search(r'(\d+)% tests passed, (\d+) tests failed out of (\d+)', t.stdout)
         meta['compiles_and_tests'] = t.stdout[-300:] if not m else '%s%% passed, %s failed of %s' % m.groups()
         meta['tests_pass'] = bool(m and m.group(2) == '0' and m.group(3) == '12')
-        sh('git -C %s checkout -- Compiler/src/lex.yy.c Compiler/include/lex.yy.h' % W)
+        # cmake may have regenerated the scanner in-tree: restore exactly the patched state
+        sh('git -C %s checkout -- . && git -C %s apply %s' % (W, W, os.path.abspath(patch)))
         rc1, out1 = build_demo('mut')
         meta['demo_clean'] = {'rc': rc0, 'out': out0[-200:]}; meta['demo_mutated'] = {'rc': rc1, 'out': out1[-200:]}
         meta['demo_discriminates'] = rc0 == 0 and rc1 not in (0, None)
